@@ -50,7 +50,7 @@ CLAIMED = {
             "DESIGN.md A.3 and Part B §1 C06"),
     "C07": ("CrossHair/z3 symbolic execution of the real handle_proxied_packet / AddonManager hook dispatch / ProxiedCircuit "
             "ownership guards with a symbolic fault schedule (behaviour per addon hook and subscriber, direction, reliable bit) "
-            "and all operation sequences up to length 4, compared with a reference ownership model",
+            "and all operation sequences up to length 4, compared with a reference ownership model; the real Event.notify over a solver-selected behaviour per subscriber (9 behaviours x <=3 subscribers + observer, two notifications)",
             "Bounded symbolic model checking of the fault schedule: every assignment of the 11 behaviours to 2 (quick) / 3 "
             "(thorough) addons x subscriber variants is explored path-exhaustively.",
             "Trusted: CrossHair + z3; snapshot serializer instead of the byte codec; deserializer stub; addon hot-reload stub.",
@@ -74,7 +74,7 @@ CLAIMED = {
             "serializers over the FULL wire range of their variable, flag serializers on a solver-selected boundary/single-bit "
             "catalogue, adapters (object state x PCode, xfer packet id, dates x time zones), byte-payload serializers on ANY "
             "payload <= 2 bytes and on single-byte substitutions of accepted base payloads (fixed-point obligation), the date "
-            "adapter's integer arithmetic with the C datetime type stubbed by its contract, block cache invalidation",
+            "adapter's integer arithmetic with the C datetime type stubbed by its contract, block cache invalidation and isolation, texture-entry face bitfields (face sets of 1-3 faces over 0..72) against an independent base-128 model",
             "Bounded symbolic model checking, one obligation per (serializer class, wire type); object and plain-data form; "
             "plain-data repr evaluated back as a literal.",
             "Trusted: CrossHair + z3; lazy_object_proxy replaced by a Python proxy; values that reach bit operators, float "
@@ -120,12 +120,12 @@ CLAIMED = {
             "DESIGN.md A.3 and Part B §1 C16"),
     "C17": ("CrossHair/z3-driven exhaustive exploration of event-queue poll histories (ack ids incl. stale re-polls, upstream "
             "status, event counts, swallowed subsets, injections, region announcements) through the real request/response "
-            "handlers and EventQueueManager, against a sequence model of what the viewer must receive",
+            "handlers and EventQueueManager, against a sequence model of what the viewer must receive; teardown histories through the real ProxiedRegion.mark_dead",
             "Bounded model checking of poll histories (2 polls quick / 3 thorough) with solver-enumerated selectors.",
             "Trusted: CrossHair + z3; LLSD-XML bodies and mitmproxy flow objects are concrete per path.",
             "DESIGN.md A.3 and Part B §1 C17"),
     "C18": ("CrossHair/z3 symbolic execution of the real filter nodes / PEG-compiled filters with symbolic leaf truth values, "
-            "of the real _val_matches and LLUDPMessageLogEntry.matches over an operator x type matrix with symbolic values, "
+            "of the real _val_matches and LLUDPMessageLogEntry.matches over an operator x type matrix with symbolic values (3-part wildcard and 4-part glob sub-field selectors), "
             "and of all bounded operation sequences on the real FilteringMessageLogger against a reference model",
             "Bounded symbolic model checking: filter programs (trees of depth <=3, chains) x all truth assignments; "
             "comparison matrix with symbolic ints/bytes; logger histories of the stated depth.",
@@ -134,7 +134,7 @@ CLAIMED = {
             "DESIGN.md A.3 and Part B §1 C18"),
     "C19": ("CrossHair/z3 symbolic execution of the real HippoClientProtocol.datagram_received and Circuit methods from a "
             "symbolic circuit pre-state (ids already seen, next id, retry budget) over <=3 symbolic arrivals / ack forms / "
-            "timer rounds, compared with a reference model of the dedupe window and the resend timer",
+            "timer rounds (incl. acknowledgements appended to a suppressed retransmission), compared with a reference model of the dedupe window and the resend timer; the real Event.notify over a solver-selected behaviour per subscriber",
             "Bounded symbolic model checking: all arrival sequences up to the stated depth with symbolic packet ids and flag "
             "bits are covered path-exhaustively.",
             "Trusted: CrossHair + z3; serializer replaced by a snapshot recorder (byte codec is C01), deserializer by a stub that "
